@@ -1674,19 +1674,34 @@ namespace igris
         iterator insert(iterator pos, const_iterator first, const_iterator last)
         {
             size_t _pos = pos - m_data;
-            size_t _first = first - m_data;
-            size_t _last = last - m_data;
+            size_t sz = last - first;
+            if (sz == 0)
+                return m_data + _pos;
 
-            size_t sz = _last - _first;
+            // the range may consist of elements of this vector: remember it
+            // by index, because the buffer may be replaced and the elements
+            // behind pos are moved up
+            bool own = m_data != nullptr &&
+                       (uintptr_t)first >= (uintptr_t)m_data &&
+                       (uintptr_t)first < (uintptr_t)(m_data + m_size);
+            size_t _first = own ? first - m_data : 0;
+
             reserve(m_size + sz);
+            size_t oldsize = m_size;
+            shift_up(_pos, sz);
+            for (size_t k = 0; k < sz; ++k)
+            {
+                size_t src = _first + k;
+                const T &ref =
+                    own ? m_data[src < _pos ? src : src + sz] : first[k];
+                if (_pos + k < oldsize)
+                    m_data[_pos + k] = ref;
+                else
+                    igris::constructor(m_data + _pos + k, ref);
+            }
             m_size += sz;
 
-            iterator first_it = m_data + _pos;
-            iterator last_it = igris::prev((iterator)end(), sz);
-            igris::move_backward(first_it, last_it, (iterator)end());
-            igris::copy(m_data + _first, m_data + _last, first_it);
-
-            return first_it;
+            return m_data + _pos;
         }
 
         iterator insert(int pos, const T &value)
